@@ -102,6 +102,8 @@ pub enum Src {
   Throw(E),
   Defer(Box<Chain>),
   Interval(u64),
+  /// as Interval, period in microseconds
+  IntervalUs(u64),
   /// (delay from now in ms: negative = in the past, period ms)
   IntervalAt(i64, u64),
   Timer(V, u64),
@@ -359,7 +361,7 @@ impl Src {
       Src::Never => "never",
       Src::Throw(_) => "throw",
       Src::Defer(_) => "defer",
-      Src::Interval(_) => "interval",
+      Src::Interval(_) | Src::IntervalUs(_) => "interval",
       Src::IntervalAt(..) => "interval_at",
       Src::Timer(..) | Src::TimerUs(..) => "timer",
       Src::TimerAt(..) => "timer_at",
